@@ -14,6 +14,8 @@ for d in seeded/*-$R/; do
     C01-m5) id="C07";;
     C04-m5) id="C03";;
     C10-m5) id="C02";;
+    C01-m6) id="C01 C07";;
+    C10-m6) id="C10 C02";;
     C09-m5) continue;;
   esac
   python3 lib/mutants.py run $n $id 2>&1 | grep -v KNOWN | cut -c1-240 >> $OUT.tmp
